@@ -4,7 +4,8 @@
    scanner; C06 relates it to the streaming parser).  Spec side (encoder
    enc_form, guards, expected dictionaries): proofs/C07_spec.v. *)
 From Verif Require Import lib.Base lib.Str lib.Utf8 gen.Gen model.MultipartRef model.Fields.
-From Verif Require Import proofs.C07_fields proofs.C07_spec proofs.C07_ref proofs.C07_roundtrip proofs.C07_pins.
+From Verif Require Import proofs.C07_fields proofs.C07_spec proofs.C07_ref proofs.C07_roundtrip proofs.C07_collect
+  proofs.C07_full proofs.C07_pins.
 
 (* The regular expression re-implemented by Fields.scan_key/scan_value/opt_matches
    is the one in /repo today (text regenerated into Gen.v on every run). *)
@@ -37,28 +38,48 @@ Theorem C07_sections :
 Proof. exact ref_enc_form. Qed.
 Print Assumptions C07_sections.
 
-(* Round trip, field objects: Request.POST on the encoded form succeeds and
-   collects exactly one FieldStorage per submitted field, in submission order,
-   with the name, (decoded) value or file name, content type and the window
-   [ds, de) of its own data section (field_of / fields_from, proofs/C07_roundtrip.v). *)
-Theorem C07_roundtrip_partial :
+(* ROUND TRIP.  For EVERY boundary B (any bytes), every list of fields within the
+   guards [parts_ok] (names and file names free of double quotes and of the
+   str.splitlines breaks — they may contain ; = : spaces, backslashes, any other
+   Unicode scalar —; plain content types; any text values; any file bytes; the
+   delimiter CRLF--B not inside a value or content; file names non-empty) and
+   every in-memory threshold that the header blocks and text values fit in:
+   Request.POST succeeds on the body a browser sends, and what the handler sees in
+   POST, forms and files (uploads through raw_filename, content_type.value and
+   file.read()) is exactly the submitted fields: every distinct name once in order
+   of first appearance, bound to its only value or to the list of all its values
+   in submission order; text fields in forms, uploads in files. *)
+Theorem C07_roundtrip :
   forall (B : bytes) (fs : list fld) (mem : Z),
     parts_ok B fs -> (total_cost fs <= mem)%Z ->
-    post B (enc_form B fs) mem
-    = POk (collect_fields (fields_from B (length (dash_boundary B)) fs)).
-Proof. exact post_enc_form. Qed.
-Print Assumptions C07_roundtrip_partial.
+    exists d, post B (enc_form B fs) mem = POk d
+              /\ view (enc_form B fs) d = Some (expected fs).
+Proof. exact roundtrip. Qed.
+Print Assumptions C07_roundtrip.
 
-(* FULL STATEMENT, NOT YET PROVED (the grouping of collect_fields into the
-   expected dictionaries, and file.read() = the submitted content, remain):
-   Theorem C07_roundtrip :
-     forall B fs mem, parts_ok B fs -> (total_cost fs <= mem)%Z ->
-       exists d, post B (enc_form B fs) mem = POk d
-                 /\ view (enc_form B fs) d = Some (expected fs).
-   Theorem C07_no_cross_part_bytes :
-     forall B fs, parts_ok B fs -> windows_ok (enc_form B fs) B (length (dash_boundary B)) fs
-     (every delivered value / content is the slice [ds, de) of its own data
-      section; the sections are disjoint and ordered). *)
+(* The collection with list promotion (BodyMixin.POST after F9) is the grouping:
+   folding the insertion over the fields gives, for each distinct name in order
+   of first appearance, its values in submission order. *)
+Theorem C07_promotion_is_grouping :
+  forall l : list (str * vitem), fold_left vadd1 l [] = grouped l.
+Proof. exact fold_vadd_grouped. Qed.
+Print Assumptions C07_promotion_is_grouping.
+
+(* NO BYTE OF ONE PART IN ANOTHER.  In the body, every header section and data
+   section reported by the scanner (C07_sections) is exactly the window of its own
+   part — slice body ds de = the submitted data — and the sections are ordered and
+   pairwise disjoint.  (With C07_roundtrip: every delivered value / file content is
+   the slice of its own data section.) *)
+Theorem C07_no_cross_part_bytes :
+  forall (B : bytes) (fs : list fld),
+    windows_ok (enc_form B fs) B (length (dash_boundary B)) fs
+    /\ ordered_from 0 (sec Data 0 0 :: secs_from B (length (dash_boundary B)) fs).
+Proof. exact no_cross_part_bytes. Qed.
+Print Assumptions C07_no_cross_part_bytes.
+
+(* Not covered by these theorems (see C06): the body is parsed here by the
+   one-piece scanner [ref]; the streaming parser equals it on well-formed bodies
+   (proofs/C06_global.v: stream_eq_ref) when CR does not occur in the boundary. *)
 
 (* Finding F10 (not repaired): an upload whose file name is empty is delivered in
    forms with value None; the round trip therefore requires fn <> [] (in fld_ok). *)
